@@ -49,6 +49,7 @@ func runC01(p *Prog, r *Report) {
 	accessibleRule(p, r, "C01.R4b")
 	methodSetRule(p, r, "C01.R5")
 	qualMethodRule(p, r, "C01.R6")
+	callersRebuiltRule(p, r, "C01.R7")
 }
 
 // reservedNames reads the initial lookup set from the map literal in namer.New.
